@@ -12,7 +12,8 @@ open Lean
 
 
 /-- repetition caps of the two error models: `compute_edge_max_reachable_value` on the augmented
-graph with `float(data.get(flow_attr, 0.0))` on *every* edge (ignored ones included), then 1 outside SCCs -/
+graph with `float(data.get(flow_attr, 0.0))` on *every* edge (ignored ones included), then 1 outside SCCs
+and the floor of the value on SCC edges (fix fcfd0b0) -/
 def reachBounds (inp : WalkInput) : List (Edge × Rat) :=
   let g := inp.st.g
   let mr := edgeMaxReachable g fun e => (inp.fOpt e).getD 0
